@@ -2,10 +2,12 @@ From Coq Require Extraction.
 From Coq Require Import ExtrOcamlBasic.
 From Coq Require Import List String.
 Open Scope string_scope.
-From SA Require Import Base.Tok Mux.Runtime Mux.WsAdapter.
+From SA Require Import Base.Tok Mux.Runtime Mux.WsAdapter Queue.WireLink.
 Definition dispatch (ts : list tok) : list tok :=
   match ts with
-  | op :: _ => if is_word "c01ws" op then dispatch_c01ws ts else dispatch_runtime ts
+  | op :: _ => if is_word "c01ws" op then dispatch_c01ws ts
+               else if is_word "c01w" op then dispatch_c01w ts
+               else dispatch_runtime ts
   | nil => dispatch_runtime ts
   end.
 Extraction "model.ml" dispatch.
